@@ -110,13 +110,95 @@ def h_sigset(ctx, nv, signers, wmode='sym', twin=None, addr=False, spell=None):
 h_sigset.theory = 'int'
 
 
-def h_history(ctx, nv, first, second, same_block=True):
+def h_real_verify(ctx, L, nv=2, twin=None):
+    """check_block_signatures through the library's own verify_sign, over an idealised Ed25519 (one valid signature F(pk, msg)
+    per key and message, F injective; nacl's VerifyKey replaced by that model): a signature field of L arbitrary symbolic bytes
+    is accepted only if it is exactly the 64-byte signature of this block's payload under the signer's key"""
+    import types
+    import pytoniq_core.crypto.signature      # noqa
+    SG = sys.modules['pytoniq_core.crypto.signature']
+    root, fileh = ctx.bytes_('root_hash', 32), ctx.bytes_('file_hash', 32)
+    blk = BlockIdExt(-1, None, 1234, root, fileh)
+    payload = b'pn\x0b\xc5' + root + fileh
+    sig = ctx.bytes_('sig', L)
+    if ctx.symbolic:
+        weights = [ctx.zint(f'w{i}', 0, (1 << 64) - 1) for i in range(nv)]
+    else:
+        weights = [ctx.zint(f'w{i}') for i in range(nv)]
+    ctx.assume(weights[0] * 3 > (sum(weights[1:]) + weights[0]) * 2)          # validator 0 alone carries more than 2/3
+    if ctx.symbolic:
+        pks = KEYS
+
+        def F(pk, msg):
+            return sha256(b'ed25519 signature R' + pk + msg) + sha256(b'ed25519 signature S' + pk + msg)
+
+        class BadSig(Exception):
+            pass
+
+        class VK:
+            def __init__(self, key, *a, **k):
+                self.key = key
+
+            def verify(self, smessage, signature=None, *a, **k):
+                if signature is None:
+                    if len(smessage) < 64:
+                        raise ValueError('too short')
+                    signature, smessage = smessage[:64], smessage[64:]
+                if len(signature) != 64:
+                    raise ValueError('The signature must be exactly 64 bytes long')
+                if not (C.SymBytes.lift(signature) == F(self.key, smessage)):
+                    raise BadSig('Signature was forged or corrupt')
+                return smessage
+        saved = (SG.VerifyKey, SG.exc)
+        SG.VerifyKey, SG.exc = VK, types.SimpleNamespace(BadSignatureError=BadSig)
+        genuine = F(pks[0], payload)
+    else:
+        from nacl.signing import SigningKey
+        sks = [SigningKey(hashlib.sha256(b'real validator %d' % i).digest()) for i in range(nv)]
+        pks = [k.verify_key.encode() for k in sks]
+        saved = None
+        genuine = sks[0].sign(payload).signature
+    nodes = [ValidatorDescr('validator', SigPubKey(pks[i]), weights[i]) for i in range(nv)]
+    sigs = [dict(node_id_short=node_id(pks[0]).hex(), signature=sig)]
+    saved_cp = CP.verify_sign
+    CP.verify_sign = SG.verify_sign
+    try:
+        try:
+            CP.check_block_signatures(nodes, sigs, blk)
+            accepted = True
+        except Exception:
+            accepted = False
+    finally:
+        CP.verify_sign = saved_cp
+        if saved:
+            SG.VerifyKey, SG.exc = saved
+    is_genuine = (sig == genuine) if L == 64 else False
+    if twin == 'never':
+        is_genuine = False
+    if ctx.symbolic or L != 64:
+        ctx.require(Iff(accepted, is_genuine), 'a signature field is accepted exactly when it is the 64-byte signature of this block under the signer\'s key')
+    else:
+        # concrete replay with the real Ed25519: an arbitrary 64-byte string is the genuine signature with negligible probability
+        ctx.require(accepted == (bytes(sig) == bytes(genuine)), 'a signature field is accepted exactly when it is the 64-byte signature of this block under the signer\'s key')
+
+
+h_real_verify.theory = 'int'
+
+
+def h_history(ctx, nv, first, second, same_block=True, reweigh=False):
     """two calls in one process: the verdict on the second signature set is a function of that call's arguments alone.
     The first call may verify genuine signatures of the same validators over the same (or another) block; the second
     set carries other signature bytes whose validity is free - a verdict remembered per (block, validator) instead of per
     signature would accept it without verifying."""
     weights = [ctx.zint(f'w{i}', 0, (1 << 64) - 1) if ctx.symbolic else ctx.zint(f'w{i}') for i in range(nv)]
     nodes = [ValidatorDescr('validator', SigPubKey(KEYS[i]), weights[i]) for i in range(nv)]
+    all_weights = {b'one': weights, b'two': weights}
+    all_nodes = {b'one': nodes, b'two': nodes}
+    if reweigh:
+        # the second call brings its own validator set: the same keys in the same order, other weights (fresh objects)
+        w2 = [ctx.zint(f'v{i}', 0, (1 << 64) - 1) if ctx.symbolic else ctx.zint(f'v{i}') for i in range(nv)]
+        all_weights[b'two'] = w2
+        all_nodes[b'two'] = [ValidatorDescr('validator', SigPubKey(KEYS[i]), w2[i]) for i in range(nv)]
     root, fileh = ctx.bytes_('root_hash', 32), ctx.bytes_('file_hash', 32)
     blk1 = BlockIdExt(-1, None, 1234, root, fileh)
     blk2 = BlockIdExt(-1, None, 1234, root, fileh) if same_block else BlockIdExt(-1, None, 1235, ctx.bytes_('root2', 32), fileh)
@@ -145,11 +227,11 @@ def h_history(ctx, nv, first, second, same_block=True):
             return False
         all_valid = And(*[valid[(KEYS[s], hashlib.sha512(tag + KEYS[s]).digest())] for s in signers]) if signers else True
         total = 0
-        for w in weights:
+        for w in all_weights[tag]:
             total = total + w
         signed = 0
         for s in signers:
-            signed = signed + weights[s]
+            signed = signed + all_weights[tag][s]
         return And(all_valid, signed * 3 > total * 2)
     saved = CP.verify_sign
     CP.verify_sign = verify_stub
@@ -157,7 +239,7 @@ def h_history(ctx, nv, first, second, same_block=True):
         for n, (signers, tag, blk) in enumerate(((first, b'one', blk1), (second, b'two', blk2), (first, b'one', blk1))):
             sigs = sigset(signers, tag)
             try:
-                CP.check_block_signatures(nodes, sigs, blk)
+                CP.check_block_signatures(all_nodes[tag], sigs, blk)
                 accepted = True
             except CP.ProofError:
                 accepted = False
@@ -226,10 +308,15 @@ def instances(tier, seed):
                     continue
                 yield 'h_history', dict(nv=nv, first=a, second=b)
         yield 'h_history', dict(nv=nv, first=[0], second=[0], same_block=False)
+        for a, b in (([0], [0]), (list(range(nv)), [0]), ([0], list(range(nv))[-2:])):
+            yield 'h_history', dict(nv=nv, first=a, second=b, reweigh=True)
+    for L in (0, 1, 63, 64, 65, 96, 128, 160):
+        yield 'h_real_verify', dict(L=L)
 
 
 def twins(tier, seed):
     yield 'h_sigset', dict(nv=3, signers=[0, 1], twin='ge')
+    yield 'h_real_verify', dict(L=64, twin='never')
 
 
 BOUNDS = {
@@ -239,6 +326,7 @@ BOUNDS = {
     'spelling': 'signer lists of length 1..3 (thorough ..4) over 1..3 validators with the node ids written in lower case, upper case, with blanks '
                 'and half upper case - every list with a repeated signer in two spelling patterns',
 }
+BOUNDS['through the real verify_sign'] = 'one signature field of 0, 1, 63, 64, 65, 96, 128, 160 arbitrary symbolic bytes, two validators, idealised Ed25519 in place of nacl'
 BOUNDS['call sequences'] = ('three calls in one process (set A, set B with other signature bytes of free validity, set A again) over the same block '
                             'or another one; 1..3 validators, sets of 0..2 distinct signers')
 OUTSIDE = ['Ed25519 itself (libsodium): only its use is checked; its contract is validated on fixed vectors', 'more than 4 validators']
